@@ -5,7 +5,8 @@
    This file only restates the property theorems; proofs are in frame/*Proofs.v. *)
 From Coq Require Import List NArith ZArith Bool.
 From JV Require Import Bytes FrameBase FrameBaseProofs FrameSpec Split SplitProofs Hdr HdrProofs
-  JsonScan JsonScanProofs RawJson RawJsonProofs Direct DirectProofs.
+  JsonScan JsonScanProofs RawJson RawJsonProofs Direct DirectProofs DirectMore FrameMore Chunked ChunkedProofs ChunkedHdr ChunkedHdrProofs RawJsonMore RawJsonGrammar.
+From JV Require Json.
 Import ListNotations.
 Local Open Scope N_scope.
 
@@ -67,3 +68,122 @@ Print Assumptions c11_direct.
 Theorem c11_fuel_split : forall b s, clean (Split.recv_all cfg_fixed b s).
 Proof. exact (split_recv_all_clean cfg_fixed). Qed.
 Print Assumptions c11_fuel_split.
+
+(* Direct under ARBITRARY interleavings of Send, Recv and Close ([run st ops]: the final state and
+   the records received; undefined only when an operation would never return - Recv on an empty
+   open direction, a second Close): at every moment the records received so far followed by the
+   records still queued are exactly the records accepted so far (those sent before Close), in
+   the order sent *)
+Theorem c11_direct_interleaved : forall ops st st' got,
+  DirectMore.run st ops = Some (st', got) ->
+  got ++ dqueue st' = dqueue st ++ accepted (dclosed st) ops.
+Proof. exact direct_interleaved. Qed.
+Print Assumptions c11_direct_interleaved.
+
+(* from the initial state and before any Close, "accepted" is every record handed to Send *)
+Theorem c11_direct_interleaved_open : forall ops st' got,
+  ~ In OClose ops -> DirectMore.run dinit ops = Some (st', got) -> got ++ dqueue st' = sends ops.
+Proof. exact direct_interleaved_open. Qed.
+Print Assumptions c11_direct_interleaved_open.
+
+(* "so far": every prefix of a run is a run (so the invariant above holds after each operation) *)
+Theorem c11_direct_run_prefix : forall ops1 ops2 st st' got,
+  DirectMore.run st (ops1 ++ ops2) = Some (st', got) ->
+  exists st1 got1 got2, DirectMore.run st ops1 = Some (st1, got1) /\
+                        DirectMore.run st1 ops2 = Some (st', got2) /\ got = got1 ++ got2.
+Proof. exact run_prefix. Qed.
+Print Assumptions c11_direct_run_prefix.
+
+(* once a run has reached a closed and drained direction, EVERY later Recv returns io.EOF and every
+   later Send its error, for every continuation (the state no longer changes) *)
+Theorem c11_direct_eof_forever : forall ops1 ops2 st st1 xs,
+  run_trace st ops1 = Some (st1, xs) -> dclosed st1 = true -> dqueue st1 = [] ->
+  ~ In OClose ops2 ->
+  run_trace st (ops1 ++ ops2) = Some (st1, xs ++ map after_eof ops2).
+Proof. exact direct_eof_forever. Qed.
+Print Assumptions c11_direct_eof_forever.
+
+(* after Close, Recv drains the queue in order and then returns io.EOF n times, for every n *)
+Theorem c11_direct_drain_then_eof : forall q n,
+  run_trace {| dqueue := q; dclosed := true |} (repeat ORecv (length q + n))
+  = Some ({| dqueue := []; dclosed := true |}, map RRecvd q ++ repeat REof n).
+Proof. exact direct_drain_then_eof. Qed.
+Print Assumptions c11_direct_drain_then_eof.
+
+(* rendezvous variant (Send enabled only when the queue is empty, as the unbuffered Go channel):
+   every such run is a run of the queue model, the same FIFO invariant holds, and at most one
+   record is ever in flight *)
+Theorem c11_direct_rendezvous : forall ops st' got,
+  run_rv dinit ops = Some (st', got) ->
+  DirectMore.run dinit ops = Some (st', got) /\
+  got ++ dqueue st' = accepted false ops /\
+  (length (dqueue st') <= 1)%nat.
+Proof. exact direct_rendezvous. Qed.
+Print Assumptions c11_direct_rendezvous.
+
+(* Split: the result of one Recv does not depend on the bufio window size k > 0 *)
+Theorem c11_split_window_indep : forall c b k s,
+  0 < k -> Split.recv_k c b k tt s = Split.recv c b tt s.
+Proof. exact split_window_indep. Qed.
+Print Assumptions c11_split_window_indep.
+
+(* ---- fragmentation: "regardless of how the transport fragments or coalesces the byte stream" ----
+   Chunked.v models the transport as a list of non-empty chunks (one Read returns at most the next
+   chunk, cut to the space offered; io.EOF after the last chunk or, with [eager], together with the
+   last bytes) and bufio.Reader's buffer / fill / ReadSlice on top of it. *)
+
+(* Split: the whole sequence of Recv calls through the chunked reader is the stream model's
+   observation of the concatenated chunks *)
+Theorem c11_split_chunked : forall c eager b chunks,
+  Forall nonempty chunks ->
+  crecv_all c eager b chunks = Split.recv_all c b (concat chunks).
+Proof. exact split_chunked_recv_all. Qed.
+Print Assumptions c11_split_chunked.
+
+(* hence the round trip for EVERY way of cutting the encoded stream into reads *)
+Theorem c11_split_chunked_round_trip : forall eager b rs chunks,
+  Forall (fun r => ~ In b r) rs -> Forall nonempty chunks ->
+  concat chunks = SplitSpec.encode b rs ->
+  crecv_all cfg_fixed eager b chunks = map IRec rs ++ [IErr EEOF].
+Proof. exact split_chunked_round_trip. Qed.
+Print Assumptions c11_split_chunked_round_trip.
+
+(* header framings: ReadString, io.ReadFull and io.CopyN on the chunked reader (ChunkedHdr.v);
+   [req] is the request-size schedule of the CopyN path (bytes.Buffer's growth policy): any *)
+Theorem c11_hdr_chunked : forall c eager req p want st chunks,
+  Forall nonempty chunks ->
+  chdr_recv_all c eager req p want st chunks = Hdr.recv_all c p want st (concat chunks).
+Proof. exact hdr_chunked_recv_all. Qed.
+Print Assumptions c11_hdr_chunked.
+
+Theorem c11_hdr_chunked_round_trip : forall eager req p mt rs st chunks,
+  usable_mime mt = true -> st <= buf_bound ->
+  Forall (fun r => (Z.of_nat (length r) <= max_int)%Z) rs ->
+  Forall nonempty chunks -> concat chunks = concat (map (HdrProofs.enc mt) rs) ->
+  chdr_recv_all cfg_fixed eager req p mt st chunks = map IRec rs ++ [IErr EEOF].
+Proof. exact hdr_chunked_round_trip. Qed.
+Print Assumptions c11_hdr_chunked_round_trip.
+
+(* RawJSON, extended to the literal records true and false (json_record_lit r = json_record r, or
+   r is the text true, or the text false): every JSON value that ends at its own last byte except
+   null, which is the wire form of the EMPTY record.  Numbers stay excluded (c12_rawjson_number_exception). *)
+Theorem c11_rawjson_lit : forall rs,
+  Forall (fun r => r = [] \/ json_record_lit r = true) rs ->
+  send_all RawJson.send rs = Some (concat (map RawJsonProofs.enc rs)) /\
+  RawJson.recv_all (concat (map RawJsonProofs.enc rs)) = map IRec rs ++ [IErr EEOF].
+Proof. exact rawjson_round_trip_lit. Qed.
+Print Assumptions c11_rawjson_lit.
+
+Theorem c11_rawjson_self_delimiting_lit : forall r rest,
+  json_record_lit r = true -> scan (r ++ rest) = Done rest.
+Proof. exact scan_self_delimiting_lit. Qed.
+Print Assumptions c11_rawjson_self_delimiting_lit.
+
+(* the record class of c11_rawjson, characterised in the INDEPENDENT JSON grammar of json/Json.v
+   (the recursive-descent parser behind json.Valid): json_record r holds exactly when r is one value
+   of that grammar without surrounding white space (tight_at 0) and is an object, array or string -
+   so the round trip is claimed for every such record, not for a class defined by the scanner itself *)
+Theorem c11_json_record_iff : forall r,
+  json_record r = true <-> starts_container_or_string r /\ Json.tight_at 0 r = true.
+Proof. exact json_record_iff. Qed.
+Print Assumptions c11_json_record_iff.
